@@ -47,3 +47,17 @@ public:
   double Get_x(unsigned i) const{ return t*i; }
 };
 }
+// E.const.write with lock-guarded mutable data: `good` must stay quiet, `bad` (no lock) and `leak`
+// (reference leaves the locked region) must be flagged
+#include <mutex>
+namespace squids{
+class Locked{
+  mutable std::mutex mtx;
+  mutable double cachev;
+  double base;
+public:
+  double good(double x) const{ std::lock_guard<std::mutex> g(mtx); cachev=base*x; return cachev; }
+  double bad(double x) const{ cachev=base*x; return cachev; }
+  const double& leak() const{ std::lock_guard<std::mutex> g(mtx); return cachev; }
+};
+}
